@@ -35,6 +35,9 @@ SRange(s, e, n) == Sel("range", <<s, e>>, <<>>, <<n>>)
 SUnion(ms) == Sel("union", <<>>, <<>>, ms)
 SRec(limit, stop, seq) == Sel("rec", <<limit, stop>>, <<>>, <<seq>>)
 SEdge == Sel("edge", <<>>, <<>>, <<>>)
+\* ExploreInterpretAs: the node is replaced by its reification through a named ADL before anything else happens at it, and
+\* the walk carries on there with `next`.  One ADL is modelled ("rev", registered by the harness): see Reify.
+SAs(n) == Sel("as", <<>>, <<>>, <<n>>)
 SRecSt(limit, stop, seq, cur) == Sel("recst", <<limit, stop>>, <<>>, <<seq, cur>>)
 
 IdxSeg(i) == <<48 + i>>                    \* decimal string of a one-digit index
@@ -72,6 +75,7 @@ Compiles(s, underRec) ==
     [] s.t \in {"all", "index"} -> Compiles(s.ss[1], underRec)
     [] s.t \in {"fields", "union"} -> \A i \in DOMAIN s.ss : Compiles(s.ss[i], underRec)
     [] s.t = "rec" -> Compiles(s.ss[1], TRUE) /\ CountEdges(s.ss[1]) > 0
+    [] s.t = "as" -> Compiles(s.ss[1], underRec)
     [] OTHER -> FALSE
 
 ------------------------------------------------------------------------------
@@ -91,6 +95,7 @@ Interests(s) ==
               IN F[Len(s.ss)]        \* concatenated, NOT de-duplicated (as in the code)
     [] s.t = "rec"    -> Interests(s.ss[1])
     [] s.t = "recst"  -> Interests(s.ss[2])
+    [] s.t = "as"     -> Interests(s.ss[1])
 
 \* hasRecursiveEdge / replaceRecursiveEdge: look through unions only
 RECURSIVE HasEdge(_)
@@ -119,6 +124,7 @@ Explore(s, n, seg, child) ==
     [] s.t = "union"  ->
          LET rs == SelectSeq([i \in DOMAIN s.ss |-> Explore(s.ss[i], n, seg, child)], LAMBDA x : x # NILSEL)
          IN IF rs = <<>> THEN NILSEL ELSE IF Len(rs) = 1 THEN rs[1] ELSE SUnion(rs)
+    [] s.t = "as"     -> s.ss[1]       \* (only reached where the walk did not unwrap the clause: inside a union, under a recursion)
     [] s.t = "rec"    -> Explore(SRecSt(s.a[1], s.a[2], s.ss[1], s.ss[1]), n, seg, child)
     [] s.t = "recst"  ->
          LET limit == s.a[1]  stop == s.a[2]  seq == s.ss[1]  cur == s.ss[2] IN
@@ -131,6 +137,15 @@ Explore(s, n, seg, child) ==
               ELSE IF limit < 2 THEN ReplaceEdge(nx, NILSEL)
               ELSE SRecSt(limit - 1, stop, seq, ReplaceEdge(nx, seq))
     [] OTHER -> NILSEL
+
+RECURSIVE HasAs(_)
+HasAs(s) == s.t = "as" \/ \E i \in DOMAIN s.ss : HasAs(s.ss[i])
+
+\* the ADL "rev": a list with its elements, a map with its entries, in reverse order; every other node is itself
+Reverse(q) == [i \in DOMAIN q |-> q[Len(q) + 1 - i]]
+Reify(n) == IF n.k = "list" THEN ListV(Reverse(n.vs))
+            ELSE IF n.k = "map" THEN MapV(Reverse(n.ks), Reverse(n.vs))
+            ELSE n
 
 \* sliceBounds(from, to, length): [ok, from, to]
 SliceBounds(from, to, len) ==
